@@ -417,11 +417,39 @@ class ArgumentParser:
             else:
                 split_argv.append(arg)
 
+        # argparse accepts any unambiguous prefix of a single-dash option
+        # as that option (-fsycl for -fsycl-is-device, -f for -fopenmp),
+        # and rejects flag=value for a flag that takes no value.  A
+        # prefix is some other, unknown option; a value given to a
+        # valueless flag (-fopenmp=libomp) does not change the flag.
+        flags = {
+            opt: action
+            for action in parser._actions
+            for opt in action.option_strings
+        }
+        prefixed = []
+        checked_argv = []
+        for arg in split_argv:
+            name, equals, _ = arg.partition("=")
+            if arg.startswith("-") and not arg.startswith("--"):
+                if equals and name in flags and flags[name].nargs == 0:
+                    arg = name
+                elif (
+                    len(name) > 1
+                    and name not in flags
+                    and name[:2] not in flags
+                    and any(f.startswith(name) for f in flags)
+                ):
+                    prefixed.append(arg)
+                    continue
+            checked_argv.append(arg)
+
         # Make a best-effort attempt to parse arguments.
         args, unrecognized = parser.parse_known_args(
-            split_argv,
+            checked_argv,
             namespace,
         )
+        unrecognized = prefixed + unrecognized
         if unrecognized:
             log.warning(f"Unrecognized arguments: '{' '.join(unrecognized)}'")
 
